@@ -48,7 +48,7 @@ def classify(case, impl, model, oracle):
 CHECK = {
     "property": "C28",
     "props": "Props/C28.v",
-    "theorems": ["c28_exact", "c28_exact_fresh", "c28_invariant_init", "c28_invariant_step", "c28_progress",
+    "theorems": ["c28_exact", "c28_exact_fresh", "c28_invariant_init", "c28_invariant_step", "c28_progress", "c28_can_finish",
                  "c28_cell_step_is_process_response", "c28_lockless_refuted"],
     "allowed_axioms": [],
     "suites": [{
